@@ -78,8 +78,9 @@ func runC03Paired(c *mon.Case) {
 	keyC, keyS := eng.NewKey(rng), eng.NewKey(rng)
 	pass := eng.Entropy(rng)
 	// the pairing runs at version 2 (earlier versions exchange no keys)
+	passS := append([]byte{}, pass...) // the responder application's passphrase buffer
 	pair := eng.RunHandshake(eng.HSConfig{CMin: 2, CMax: 2, SMin: byte(rng.Intn(3)), SMax: 2,
-		PassC: pass, PassS: append([]byte{}, pass...), Auth: auth, KeyC: keyC, KeyS: keyS})
+		PassC: pass, PassS: passS, Auth: auth, KeyC: keyC, KeyS: keyS})
 	rep := map[string]any{"kind": "paired-then-other-key"}
 	if !pair.OK() {
 		c.Shard.Violate("control-failed|pairing", fmt.Sprintf("first pairing with matching passphrases and maximum version 2 failed: client=%v server=%v", pair.C.Err, pair.S.Err), rep)
@@ -149,6 +150,22 @@ func runC03Paired(c *mon.Case) {
 		fail("control-failed", fmt.Sprintf("the two paired parties could not reconnect: client new=%v hs=%v server new=%v hs=%v", ctl.C.NewErr, ctl.C.Err, ctl.S.NewErr, ctl.S.Err))
 	} else {
 		c.Shard.Count("controls_completed", 1)
+	}
+	// (d) The responder application serves further first-time clients from
+	// the same passphrase buffer (the TCP listener builds a ConnData from it
+	// for every connection): somebody who does not know the passphrase - here
+	// the all-zero one of the right length - must still be refused, and the
+	// holder of the passphrase still be served.
+	zero := make([]byte, len(pass))
+	d := eng.RunHandshake(eng.HSConfig{CMin: 0, CMax: 2, SMin: 0, SMax: 2, PassC: zero, PassS: passS, Auth: auth, KeyC: eng.NewKey(rng), KeyS: keyS})
+	if d.C.NewErr == nil && d.S.NewErr == nil {
+		if d.S.Err == nil || d.C.Err == nil || wrote(d.S2C) != 0 || d.C.CD.AuthData() != nil {
+			fail("later-client-without-passphrase", fmt.Sprintf("after the pairing, a first-time client presenting the all-zero passphrase to a responder built from the same passphrase buffer: responder result %v (wrote %d bytes), initiator result %v, initiator holds %d bytes of auth data", d.S.Err, wrote(d.S2C), d.C.Err, len(d.C.CD.AuthData())))
+		}
+	}
+	e := eng.RunHandshake(eng.HSConfig{CMin: 0, CMax: 2, SMin: 0, SMax: 2, PassC: append([]byte{}, pass...), PassS: passS, Auth: auth, KeyC: eng.NewKey(rng), KeyS: keyS})
+	if !e.OK() {
+		fail("control-failed|later-client", fmt.Sprintf("after the pairing, another first-time client with the right passphrase is refused by a responder built from the same passphrase buffer: initiator %v, responder %v", e.C.Err, e.S.Err))
 	}
 	c.Shard.Count("paired_then_other_key_sequences", 1)
 	c.Shard.Count("mismatch_handshakes", 2)
